@@ -174,7 +174,7 @@ def run(ck, F):
                         if d.endswith(allowed) and "HashMap" in d:
                             ck.ok("R3", f"{d.rsplit('::', 1)[-1]}", B.term(bb).get("sp"), f"Files.map accessed by key ({d})", fn=b["path"])
                         else:
-                            ok, why = C12.order_insensitive_loop(B, bb)
+                            ok, why = C12.iteration_verdict(F, b["path"], t.get("cs") or t.get("sp"))
                             if ok:
                                 ck.ok("R3", "reset-loop", B.term(bb).get("sp"), "Files.map iterated only to reset flags", fn=b["path"])
                             else:
